@@ -551,11 +551,12 @@ def analyse(args):
     if iout.get("_crashed"):
         fail("C09:fit:crash", "the fitter crashed on a well-posed problem: " + iout["_crashed"][:200])
     def cmp_dense(tag, itok, mtok, K, what):
+        signame = ("normal-system:" + tag.split(".")[0]) if tag.split(".")[0] in ("cpp", "c") else tag.split(".")[0]
         if itok is None or mtok is None:
-            fail("C09:corr:" + tag.split(".")[0] + ":missing", what + ": object missing on one side")
+            fail("C09:corr:" + signame + ":missing", what + ": object missing on one side")
             return
         if itok[:2] != mtok[:2]:
-            fail("C09:corr:" + tag.split(".")[0] + ":shape", "%s: shape %s (code) vs %s (model)" % (what, itok[:2], mtok[:2]))
+            fail("C09:corr:" + signame + ":shape", "%s: shape %s (code) vs %s (model)" % (what, itok[:2], mtok[:2]))
             return
         ex = [Fr(x) for x in mtok[2:]]
         im = [fr_of_hex(x) for x in itok[2:]]
@@ -565,7 +566,7 @@ def analyse(args):
         if worst > t:
             k = max(range(len(ex)), key=lambda i: abs(ex[i] - im[i]))
             ncol = int(mtok[1])
-            fail("C09:corr:" + tag.split(".")[0], "%s: entry (%d,%d) is %r in the code, %r exactly (allowed %.3g)" % (
+            fail("C09:corr:" + signame, "%s: entry (%d,%d) is %r in the code, %r exactly (allowed %.3g)" % (
                 what, k // ncol, k % ncol, float(im[k]), float(ex[k]), float(t)), tag=tag)
     for k in range(nd):
         cmp_dense("basis.%d" % k, iout.get("basis.%d" % k), mout.get("basis.%d" % k), 64, "bsplinebasis of dimension %d" % k)
